@@ -30,6 +30,7 @@ ENGINE_TEXT = {
     "coq-schema": ("coq/Schema", "Coq model of the schema AST/tokens/printer/parser; harness `schema`"),
     "coq-intro": ("coq/Intro", "Coq model of the introspection IR, canonical bytes and type ids; harness `intro`"),
     "coq-proto": ("coq/Proto", "Coq protocol automata (handshake, client life cycle, credit, discovery folds); harnesses over the real client API"),
+    "coq-clientfold": ("coq/ClientFold", "Coq folds of the discoverer entries, lifetimes and listener bookkeeping over bus-event sequences; harness `discover` over the real client API"),
     "coq-derive": ("coq/Derive", "Coq model of the derive macros' wire contract; harness compiling generated code"),
 }
 m = {
